@@ -86,6 +86,10 @@ Definition next_phase (ph : phase) (m : mstep) : option phase :=
   | PLocked, MChoose => Some PChosen
   | PLocked, MAlloc => Some PAlloc
   | PLocked, MUnlock => Some PIdle
+  (* `event_log.append(&event)?` returned Err: the call ends with the seq chosen (the counter possibly
+     loaded from the log on first use) and nothing written; the guard is dropped *)
+  | PChosen, MUnlock => Some PIdle
+  | PAlloc, MUnlock => Some PIdle
   | PChosen, MLogAppend t _ => if is_cont t then Some (PLogged false) else None
   | PLogged _, MSidecar => Some (PLogged true)
   | PLogged sc, MBcast => Some (PLogged sc)
